@@ -448,6 +448,22 @@ func CheckWrites(rc *RunCtx, rec *BuildRec, ws *WriteState, label string, cancel
 		}
 		outputs[path.Clean(f.Path)] = string(f.Contents)
 	}
+	// every reported output lies inside the output directory (none of the generated name
+	// templates or entry points contains a parent-directory segment)
+	if od := rec.Opts.Outdir; od != "" && !strings.Contains(rec.Opts.EntryNames+rec.Opts.ChunkNames+rec.Opts.AssetNames, "..") {
+		abs := od
+		if !strings.HasPrefix(od, "/") {
+			abs = path.Join(rec.Model.Root, od)
+		}
+		for p := range outputs {
+			if !strings.HasPrefix(p, abs+"/") {
+				return viol("outside-outdir", "", "the build reports the output %s, which is not inside the output directory %s (no name template contains a parent-directory segment)", p, abs)
+			}
+		}
+		if len(outputs) > 0 {
+			rc.Probe("outputs_inside_outdir_checked")
+		}
+	}
 	// inputs: everything loaded through the caches/bundler/resolver in this build, plus
 	// (for builds served from the context's cache) the inputs the metafile names
 	inputs := map[string]bool{}
